@@ -65,6 +65,19 @@ pub fn dispatch(fs: &[String]) -> String {
         "css_septable" => crate::cssops::septable(),
         "group" => group(a(1)),
         "total" => total(a(1), a(2), a(3), a(4) == "1"),
+        "expr_str" => {
+            // the real stringifier on the single binding `{{ src }}` (text node): what is printed between the braces
+            use tc::stringify::Stringify;
+            let text = format!("{{{{ {} }}}}", a(1));
+            let (template, _ps) = tc::parse::parse("p", &text);
+            let mut st = tc::stringify::Stringifier::new(String::new(), "p", &text);
+            template.stringify_write(&mut st).unwrap();
+            let (out, _) = st.finish();
+            match out.strip_prefix("{{").and_then(|x| x.strip_suffix("}}")) {
+                Some(x) => esc(x),
+                None => format!("not-a-single-binding\t{}", esc(&out)),
+            }
+        }
         "static_value" => {
             // the text/attribute value parser on plain text: the decoded static string (`dynamic` if it contains a binding)
             let (v, _w, _i, _p) = tc::verif_hooks::verif_parse_value(a(1));
